@@ -8,7 +8,7 @@ Case grammar (one line, id added by vcheck):
       R = private C++ mpt::config::root, J = raw config_item array (mpt_config_item_reserve / _query, lazy removal);
       the <no> pathspecs are the observation points queried after EVERY operation;
       op: a <pathspec> <valuehex|->   assign        r <pathspec>   remove        d <pathspec>   (J) mark unused
-  P <sephex> <assignhex> <op>...       path operations on one mpt path
+  P|Q <sephex> <assignhex> <op>...     path operations on one mpt path (Q: through the C++ mpt::path methods set/add/del)
       op: set <str> <len|-1> | next | last | del | add <n> | post <hex> | bin
   pathspec = <handle>:<sephex>:<str>,  str = "~" (NULL) | "-" (empty string) | hex of the C string
 """
@@ -62,7 +62,7 @@ class C10(DiffProperty):
                 "failures and the path == NULL forms of the interface are not modelled")
     trusted = ["harness/c10_store.c walks the node tree from the file-local nodeGlobal (config_global.c is #included) and the raw item "
                "arrays slot by slot, independently of the library; it writes decoy items into the unused capacity behind _used",
-               "harness/c10_root.cpp drives config::root through the virtual config interface; the UBSan vptr check is suppressed "
+               "harness/c10_root.cpp drives config::root through the virtual config interface and mpt::path through its methods (kind Q); the UBSan vptr check is suppressed "
                "there (harness/c10_ubsan.supp) because mpt++ deliberately views C-allocated buffers as C++ objects",
                "text of a value is read through the vector-of-char conversion (the buffer metatype for long text offers no 's' conversion)"]
     level_text = ("proof: Coq theorems (coq/C10/Properties.v, all closed under the global context) "
@@ -79,10 +79,10 @@ class C10(DiffProperty):
                   "what is beneath it); no bound on path length, element length, tree size or history length; the model is tied to the code on "
                   "every run by differential execution under ASan/UBSan (state dumps + every observation path queried after every operation)")
     level_note = ("trusted: Coq kernel; hand transcription of the C/C++ files (validated by the correspondence run, not verified); extraction "
-                  "and OCaml driver; harnesses. The theorems hold for the tree WITH the 14 fix: commits of branch verif-C10 (path_set string end, "
+                  "and OCaml driver; harnesses. The theorems hold for the tree WITH the 15 fix: commits of branch verif-C10 (path_set string end, "
                   "path_last offset / 8-bit length / binary start / signed length, path_add 8-bit first / binary first after consumption, "
                   "path_del array cut, meta_new argument order / size threshold, first global element unlink, config_item_query _size, "
-                  "config_item_reserve cut length, config::root::remove set_name) - see docs/notes_C10.md. Guards: element names up to 65534 "
+                  "config_item_reserve cut length, config::root::remove set_name, mpt::path::add argument) - see docs/notes_C10.md. Guards: element names up to 65534 "
                   "bytes (16-bit identifier length; longer names are refused after the nodes in front were created - Example "
                   "C10_name_limit_witness); config::root reports the empty path as absent. NOT proved, only cross-checked against the abstract "
                   "path specification astep by the correspondence run: binary-length mode (SepBinary) of path_next/add/del/last, mpt_path_last "
@@ -97,8 +97,8 @@ class C10(DiffProperty):
         hr = build_harness(self.harness_cxx, ["mptcore", "mpt++"])
         mx = build_model(self.mlname, self.driver, self.extract_vo)
         ided = ["c%d %s" % (i, c) for i, c in enumerate(cases)]
-        cc = [c for c in ided if c.split()[1] != "R"]
-        rc = [c for c in ided if c.split()[1] == "R"]
+        cc = [c for c in ided if c.split()[1] not in ("R", "Q")]
+        rc = [c for c in ided if c.split()[1] in ("R", "Q")]
         I = {}
         errs = []
         if cc:
@@ -131,7 +131,7 @@ class C10(DiffProperty):
     # ------------------------------------------------------------------ case structure
     def split(self, case):
         t = case.split()
-        if t[0] == "P":
+        if t[0] in ("P", "Q"):
             hdr, rest = t[:3], t[3:]
         else:
             nv = int(t[1])
@@ -152,7 +152,7 @@ class C10(DiffProperty):
             yield self.join(hdr, ops[:k] + ops[k + 1:])
         for k in range(1, len(ops)):
             yield self.join(hdr, ops[:k])
-        if hdr[0] != "P":
+        if hdr[0] not in ("P", "Q"):
             nv = int(hdr[1])
             no = int(hdr[2 + nv])
             obs = hdr[3 + nv:]
@@ -171,7 +171,7 @@ class C10(DiffProperty):
     def classify(self, case):
         hdr, ops = self.split(case)
         cl = {"kind:" + hdr[0]}
-        if hdr[0] == "P":
+        if hdr[0] in ("P", "Q"):
             for o in ops:
                 cl.add("p:" + o[0])
                 if o[0] in ("post", "set") and len(o[1]) >= 2 * 254:
@@ -179,7 +179,7 @@ class C10(DiffProperty):
             if any(o[0] == "bin" for o in ops):
                 cl.add("binary-mode")
             if not any(o[0] != "set" for o in ops):
-                cl.discard("kind:P")
+                cl.discard("kind:" + hdr[0])
                 return cl if len(cl) > 0 else set()
             return cl
         if int(hdr[1]):
@@ -373,7 +373,9 @@ class C10(DiffProperty):
         for i in range(n):
             cases.append(self.gen_store(rng, "GRJ"[i % 3]))
         for i in range(n):
-            cases.append(self.gen_pathcase(rng))
+            c = self.gen_pathcase(rng)
+            # every fourth path history goes through the C++ mpt::path methods (set / add / del)
+            cases.append("Q" + c[1:] if i % 4 == 3 else c)
         return cases
 
 
